@@ -345,9 +345,14 @@ def run(cx):
     got = cx.func(REL, "TElement.get_orig_text", "R04e")
 
     def line_splitters(f, arg):
+        # private helpers expanded in place: the cut may have been moved into one (`lines = self._src_lines(text)`)
+        from sa.inline import inlined
+        from sa.guards import expand_at
+        f, _u = inlined(repo.modules[REL], f, nested=True)
         out = []
         for c in walk_local(f):
-            if isinstance(c, ast.Call) and isinstance(c.func, ast.Attribute) and c.func.attr in ("split", "splitlines", "rsplit", "partition") and is_name(c.func.value, arg):
+            if isinstance(c, ast.Call) and isinstance(c.func, ast.Attribute) and c.func.attr in ("split", "splitlines", "rsplit", "partition") \
+                    and (is_name(c.func.value, arg) or is_name(expand_at(c.func.value, c), arg)):
                 out.append((c, c.func.attr + "(" + ", ".join(norm(a) for a in c.args) + (", " + ", ".join(f"{k.arg}={norm(k.value)}" for k in c.keywords) if c.keywords else "") + ")"))
         return out
     w = line_splitters(tok, params(tok)[1])
